@@ -6,6 +6,8 @@ OUT=$1; shift
 S=${EVAL_SUFFIX:-}; EV=/tmp/evalverif$S; ER=/tmp/evalrepo$S
 mkdir -p $EV
 rsync -a --delete --exclude .git --exclude scratch --exclude replays /verif/ $EV/
+# EVAL_REV=<commit>: evaluate with the tracked files of an EARLIER state of /verif (to measure what that state reported)
+if [ -n "${EVAL_REV:-}" ]; then git -C /verif archive "$EVAL_REV" | tar -x -C $EV; fi
 if [ ! -d $ER ]; then git -C /repo worktree add -q --detach $ER HEAD; fi
 git -C $ER checkout -q --detach $(git -C /repo rev-parse HEAD)
 git -C $ER checkout -- .
